@@ -311,17 +311,17 @@ Lemma tvar_binding : forall w k c oc ts xs,
   binding_subclass w c ts xs -> type_var_at w k c oc = type_var_of (Ok (VDict (combine ts xs))).
 Proof. intros. unfold type_var_at. apply type_var_eq; [now apply get_types_binding|exact I]. Qed.
 
-Lemma tv_chain : forall tv w f0 k c oc ts xs,
-  chain_binding tv w (S f0) c ts xs -> type_vars_at w (f0 + k) c oc = Ok (VDict (combine ts xs)).
+Lemma tv_chain : forall w f0 k c oc ts xs,
+  chain_binding w (S f0) c ts xs -> type_vars_at w (f0 + k) c oc = Ok (VDict (combine ts xs)).
 Proof.
-  intros tv w f0 k c oc ts xs (pre & d & zs & post & Hl & Hpre & Hmx & Hpost & Hng & Hr & Hd & _).
+  intros w f0 k c oc ts xs (pre & d & zs & post & Hl & Hpre & Hmx & Hpost & Hng & Hr & Hd & _).
   unfold type_vars_at. rewrite type_vars_eq. now apply get_types_chain with pre d zs post.
 Qed.
 
-Lemma tvar_chain : forall tv w f0 k c oc ts xs,
-  chain_binding tv w (S f0) c ts xs -> type_var_at w (f0 + k) c oc = type_var_of (Ok (VDict (combine ts xs))).
+Lemma tvar_chain : forall w f0 k c oc ts xs,
+  chain_binding w (S f0) c ts xs -> type_var_at w (f0 + k) c oc = type_var_of (Ok (VDict (combine ts xs))).
 Proof.
-  intros tv w f0 k c oc ts xs (pre & d & zs & post & Hl & Hpre & Hmx & Hpost & Hng & Hr & Hd & _).
+  intros w f0 k c oc ts xs (pre & d & zs & post & Hl & Hpre & Hmx & Hpost & Hng & Hr & Hd & _).
   unfold type_var_at. apply type_var_eq; [now apply get_types_chain with pre d zs post|exact I].
 Qed.
 
@@ -533,11 +533,14 @@ Qed.
 
 
 
-Lemma chain_binding_b_sound : forall tv w f c ts xs,
-  chain_binding_b tv w f c ts xs = true -> chain_binding tv w f c ts xs.
+Lemma chain_bases_b_sound : forall w f bases ts xs,
+  chain_bases_b w f bases ts xs = true ->
+  exists pre d zs post, bases = pre ++ VAlias (VCls d) zs :: post /\
+    forallb (front_ok w) pre = true /\ uses_mixin w d = true /\
+    forallb is_base post = true /\ existsb is_generic_alias post = false /\
+    resolve w f d zs = Some (ts, xs) /\ distinct_keys [] ts = true /\ forallb (fun x => negb (is_param w x)) xs = true.
 Proof.
-  unfold chain_binding_b, chain_binding. intros tv w f c ts xs H.
-  destruct (lookup_ob w c) as [bases|]; [|discriminate].
+  unfold chain_bases_b. intros w f bases ts xs H.
   destruct (binding_base w [] bases) as [[[[d zs] front] post]|] eqn:Eb; [|discriminate].
   destruct (binding_base_split _ _ _ _ _ _ _ Eb) as [E U]. cbn [app] in E. subst bases.
   apply andb_true_iff in H as [H H4]. apply andb_true_iff in H as [H H3]. apply andb_true_iff in H as [H1 H2].
@@ -547,11 +550,28 @@ Proof.
   exists front, d, zs, post. repeat split; assumption.
 Qed.
 
-(* a binding base that declares Generic[..] itself is a chain of length 1 *)
-Lemma binding_is_chain : forall tv w c ts xs,
-  binding_subclass w c ts xs -> forallb (fun x => negb (tv x)) xs = true -> chain_binding tv w 1 c ts xs.
+Lemma chain_binding_b_sound : forall w f c ts xs,
+  chain_binding_b w f c ts xs = true -> chain_binding w f c ts xs.
 Proof.
-  intros tv w c ts xs (pre & d & post & Hl & Hpre & Hmx & Hpost & Hng & Hd) Hcl.
+  unfold chain_binding_b, chain_binding. intros w f c ts xs H.
+  destruct (lookup_ob w c) as [bases|]; [|discriminate].
+  destruct (chain_bases_b_sound _ _ _ _ _ H) as (pre & d & zs & post & -> & R). exists pre, d, zs, post. split; [reflexivity|exact R].
+Qed.
+
+(* a binding base that declares Generic[..] itself is a chain of length 1 *)
+Lemma binding_is_chain : forall w c ts xs,
+  binding_subclass w c ts xs -> forallb (fun x => negb (is_param w x)) xs = true -> chain_binding w 1 c ts xs.
+Proof.
+  intros w c ts xs (pre & d & post & Hl & Hpre & Hmx & Hpost & Hng & Hd) Hcl.
   pose proof Hd as (b & _ & _ & Hk).
   exists pre, d, xs, post. repeat split; try assumption. now apply resolve_direct.
+Qed.
+
+(* the class statement that binds the parameters is found behind classes without __orig_bases__ on the MRO *)
+Lemma chain_inherited : forall w f c s before after bases ts xs,
+  inherits_bases_of w c s before after -> own_ob w s = Some bases -> lookup_ob w s = Some bases ->
+  chain_binding w f s ts xs -> chain_binding w f c ts xs.
+Proof.
+  intros w f c s before after bases ts xs Hi Ho Hs (pre & d & zs & post & Hl & R).
+  exists pre, d, zs, post. split; [|exact R]. rewrite (lookup_inherits _ _ _ _ _ _ Hi Ho). congruence.
 Qed.
